@@ -471,6 +471,9 @@ class ObjRunner:
         if c is not None and f is None:
             from .core import try_fold
             for k in self.prog.mro(c):
+                stored = self.__dict__.get("_class_refs", {}).get((k.node.name, id(k.node)))
+                if stored is not None and attr in stored and not attr.startswith("__"):
+                    return stored[attr]  # a value stored on the class object earlier in this process
                 for st in k.node.body:
                     tgt = st.targets[0] if isinstance(st, ast.Assign) and len(st.targets) == 1 else st.target if isinstance(st, ast.AnnAssign) else None
                     if isinstance(tgt, ast.Name) and tgt.id == attr and getattr(st, "value", None) is not None:
@@ -493,15 +496,20 @@ class ObjRunner:
     def class_ref(self, name, node=None):
         """Model of a class object: its name and the constants assigned in its body."""
         from .core import try_fold
-        ref = Obj({"__class__": name, "__is_class__": True})
+        cache = self.__dict__.setdefault("_class_refs", {})
         c = self.cinfo(name)
         node = node or (c.node if c is not None else None)
+        ck = (name, id(node))
+        if ck in cache:
+            return cache[ck]  # one class object per process: a store on it (Class.attr = ...) is seen by every later call
+        ref = Obj({"__class__": name, "__is_class__": True})
         if node is not None:
             for st in node.body:
                 if isinstance(st, ast.Assign) and len(st.targets) == 1 and isinstance(st.targets[0], ast.Name):
                     v = try_fold(st.value)
-                    if v is not None:
+                    if v is not None or (isinstance(st.value, ast.Constant) and st.value.value is None):
                         ref.setdefault(st.targets[0].id, v)
+        cache[ck] = ref
         return ref
 
     def loop(self, interp, st):
@@ -766,6 +774,8 @@ class ObjRunner:
                 not args or (isinstance(call.args[0], ast.Name) and call.args[0].id in ("list", "dict", "set", "int", "float", "str")) or args[0] is None):
             fac = {"list": list, "dict": dict, "set": set, "int": int, "float": float, "str": str}.get(call.args[0].id) if args and args[0] is not None else None
             return DefaultDictModel(fac, *args[1:])
+        if name == "id" and name not in interp.env and len(args) == 1 and not kw and not isinstance(args[0], Unknown):
+            return id(args[0])  # identity of the model object: equal for the same object, different for different live objects - all a program may rely on
         if name in ("set", "frozenset", "dict") and name not in interp.env and len(args) <= 1 and not kw:
             return {"set": set, "frozenset": frozenset, "dict": dict}[name](*args)
         if isinstance(call.func, ast.Name) and self.cinfo(name) is not None:
